@@ -204,7 +204,11 @@ func init() {
 			e.unsupported("Keccak256Hash with != 1 chunk")
 		}
 		code := e.bytesCode(sl.Arr.Val.(*ArrayV).E[sl.Off])
-		return &OpaqueV{Tag: "hash", Data: e.C.App("keccak!", IntSort, code)}, false
+		h := e.C.App("keccak!", IntSort, code)
+		// a digest is 32 bytes long (hence non-empty)
+		e.Assume(e.C.Eq(e.bytesLen(h), e.C.BVConst(64, 32)))
+		e.Assume(e.C.mk(&Term{Op: ">", Sort: BoolSort, Args: []*Term{h, e.C.IntConst(0)}}))
+		return &OpaqueV{Tag: "hash", Data: h}, false
 	})
 	reg("(github.com/ethereum/go-ethereum/common.Hash).Bytes", func(e *Exec, fv *FuncV, args []Value, cc *ssa.CallCommon) (Value, bool) {
 		h := args[0].(*OpaqueV)
@@ -227,10 +231,43 @@ func init() {
 	reg("github.com/ethereum/go-ethereum/crypto.Ecrecover", func(e *Exec, fv *FuncV, args []Value, cc *ssa.CallCommon) (Value, bool) {
 		h, s := e.bytesCode(args[0]), e.bytesCode(args[1])
 		okv := e.C.App("ecrecover_ok!", BoolSort, h, s)
+		if s.Op == "uf" && s.Name == "sign!" {
+			e.Assume(e.C.Implies(e.C.Eq(s.Args[0], h), okv))
+		}
 		if e.Branch(okv) {
 			return TupleV{&BytesV{Code: e.C.App("ecrecover!", IntSort, h, s)}, &IfaceV{}}, false
 		}
 		return TupleV{&SliceV{}, &IfaceV{Typ: errType(e), Val: &OpaqueV{Tag: "err:invalid signature"}}}, false
+	})
+	reg("github.com/ethereum/go-ethereum/crypto.GenerateKey", func(e *Exec, fv *FuncV, args []Value, cc *ssa.CallCommon) (Value, bool) {
+		pt := fv.Fn.Signature.Results().At(0).Type().(*types.Pointer)
+		obj := e.newObject(pt.Elem(), e.zero(pt.Elem()), "private key")
+		return TupleV{&Pointer{Obj: obj}, &IfaceV{}}, false
+	})
+	reg("github.com/ethereum/go-ethereum/common.BytesToHash", func(e *Exec, fv *FuncV, args []Value, cc *ssa.CallCommon) (Value, bool) {
+		// left-crops / left-pads to 32 bytes: identity on 32-byte inputs, otherwise an uninterpreted function
+		code := e.bytesCode(args[0])
+		c := e.C
+		th := c.App("tohash!", IntSort, code)
+		e.Assume(c.Implies(c.Eq(e.bytesLen(code), c.BVConst(64, 32)), c.Eq(th, code)))
+		return &OpaqueV{Tag: "hash", Data: th}, false
+	})
+	reg("github.com/aukilabs/hagall-common/ncsclient.NewNCSClient", func(e *Exec, fv *FuncV, args []Value, cc *ssa.CallCommon) (Value, bool) {
+		v := e.zero(fv.Fn.Signature.Results().At(0).Type()).(*StructV)
+		v.F[0] = args[0]
+		return v, false
+	})
+	reg("(*github.com/aukilabs/hagall-common/ncsclient.NCSClient).PostReceipt", func(e *Exec, fv *FuncV, args []Value, cc *ssa.CallCommon) (Value, bool) {
+		// the credit service: records the request; reachable, slow or down = arbitrary error result
+		posts, _ := e.ext["ncs.posts"].([]Value)
+		e.ext["ncs.posts"] = append(posts, copyVal(args[2]))
+		n := len(posts)
+		okv := e.C.Var(fmt.Sprintf("ncs_ok!%d", n), BoolSort)
+		e.S.Declare(okv)
+		if e.Branch(okv) {
+			return &IfaceV{}, false
+		}
+		return &IfaceV{Typ: errType(e), Val: &OpaqueV{Tag: "err:credit service unreachable"}}, false
 	})
 	reg("github.com/ethereum/go-ethereum/common/hexutil.Encode", func(e *Exec, fv *FuncV, args []Value, cc *ssa.CallCommon) (Value, bool) {
 		return e.C.App("hex!", IntSort, e.bytesCode(args[0])), false
